@@ -108,6 +108,7 @@ type FnVC struct {
 	frameAny    bool
 	implTypes   map[string]types.Type
 	mergedEpochs map[int]*mergedEpoch
+	ifaceFrameProps []string
 }
 
 func newFnVC(e *Engine, f *ssa.Function, ct *Contract) *FnVC {
